@@ -19,7 +19,10 @@ from vcheck import sexp
 
 BOOSTS = [1.0, 1.0, 1.0, 2.0, 0.5, 4.0, 0.25, 1.5, 3.0]
 WORDS = ["a", "aa", "ab", "aab", "abc", "b", "ba", "bab", "bb", "bc", "c", "ca", "cab", "cb", "abd",
-         "d", "da", "ac", "bca", "aaa"]
+         "d", "da", "ac", "bca", "aaa", "bd", "cc", "cd", "dab", "dc", "ad", "bba", "cba", "acb", "dd",
+         "abb", "baa", "cac", "dba", "aad", "bcd", "ccb", "dac", "e", "ea", "eb", "abe", "bce", "ee",
+         # multi-byte characters: wildcards and edit distance count code points, ranges compare bytes
+         "\u00e9", "a\u00e9", "\u00e9b", "b\u00fc", "\u00f1", "\u65e5", "\u65e5\u672c", "a\u65e5"]
 TEXTY = ("text", "charboost")
 EPOCH = datetime.datetime(2000, 1, 1)
 
@@ -193,8 +196,9 @@ def gen_doc(rng, spec, key, vocab):
     return d
 
 
-def gen_history(rng, keys, maxseg=5):
-    nseg = rng.choice([1, 1, 2, 2, 3, 3, 4, maxseg])
+def gen_history(rng, keys, maxseg=5, nseg=None):
+    pick = rng.choice([1, 1, 2, 2, 3, 3, 4, maxseg])
+    nseg = pick if nseg is None else nseg
     cuts = sorted(rng.sample(range(1, len(keys)), min(nseg - 1, max(0, len(keys) - 1)))) if len(keys) > 1 else []
     parts, prev = [], 0
     for c in cuts + [len(keys)]:
@@ -299,7 +303,12 @@ class QGen(object):
             w = self.word()
             return ["fuzzy", wf, w, r.choice([1, 1, 2]), r.choice([0, 1, 1, min(2, len(w))]), self.boost(), cs]
         if k == "every":
-            f = r.choice([None, None] + list(self.spec.keys()))
+            # (the key field has one term per document: Every over it costs the list model
+            # |lexicon| x |docs|^2 steps, so it is left out for the 2000+ document corpora)
+            many = ("numeric", "datetime")
+            names = [n for n in self.spec.keys()
+                     if len(self.docs) <= 150 or (n != "i" and self.spec[n]["kind"] not in many)]
+            f = r.choice([None, None] + names)
             return ["every", f, self.boost()]
         if k == "nrange":
             f = r.choice(self.numf)
@@ -331,12 +340,42 @@ class QGen(object):
             return ["term", r.choice(self.boolf), r.random() < 0.5, self.boost()]
         return ["null"]
 
+    def sparse_leaf(self):
+        """a term that few documents contain: a rare word of a text field, or a value of an
+        ID/KEYWORD field"""
+        r = self.rng
+        cnt = {}
+        f = r.choice(self.wordf)
+        kind = self.spec[f]["kind"]
+        for d in self.docs.values():
+            if f in d:
+                ws = [t[0] for t in d[f]] if kind in TEXTY else (d[f] if kind == "keyword" else [d[f]])
+                for w in set(ws):
+                    cnt[w] = cnt.get(w, 0) + 1
+        if not cnt:
+            return ["term", f, self.word(), 1.0]
+        rare = sorted(cnt, key=lambda w: (cnt[w], w))[:max(1, len(cnt) // 3)]
+        return ["term", f, r.choice(rare), self.boost()]
+
+    def nested(self, depth):
+        """AndMaybe / AndNot / Require with a sparse required side below an And / Or: the parent
+        moves it with skip_to() to ids where the required side has no posting"""
+        r = self.rng
+        k = r.choice(["andmaybe", "andmaybe", "andnot", "require"])
+        inner = [k, self.sparse_leaf(), self.tree(max(0, depth - 2))]
+        others = [self.tree(max(0, depth - 2)) for _ in range(r.choice([1, 1, 2]))]
+        subs = others + [inner]
+        r.shuffle(subs)
+        return [r.choice(["and", "and", "or"]), subs, self.boost()]
+
     def tree(self, depth=None):
         r = self.rng
         if depth is None:
             depth = r.choice([0, 1, 1, 2, 2, 3, 3, 4, self.maxdepth])
         if depth <= 0:
-            return self.leaf()
+            return self.leaf() if r.random() < 0.85 else self.sparse_leaf()
+        if depth >= 2 and r.random() < 0.15:
+            return self.nested(depth)
         k = r.choice(["and", "and", "or", "or", "or", "dismax", "not", "andnot", "andnot", "andmaybe",
                       "require", "const"])
         if k in ("and", "or", "dismax"):
@@ -352,9 +391,11 @@ class QGen(object):
         return [k, self.tree(depth - 1), self.tree(depth - 1 - (r.random() < 0.3))]
 
 
-def gen_case(rng, ndocs=None, nq=8, maxdepth=5, longdocs=False):
+def gen_case(rng, ndocs=None, nq=8, maxdepth=5, longdocs=False, nseg=None, nodeletes=False, vocab_n=None,
+             sparse_or=0):
     spec = gen_schema(rng)
-    vocab = rng.sample(WORDS, rng.randint(4, 12))
+    # small vocabularies give dense posting lists, large ones sparse lists (cursors that skip far)
+    vocab = rng.sample(WORDS, vocab_n or rng.choice([4, 6, 8, 10, 12, 12, 16, 24, 36]))
     if ndocs is None:
         ndocs = rng.choice([1, 2, 3, 5, 8, 8, 12, 12, 20, 30, 45, 60])
     keys = ["k%03d" % i for i in range(ndocs)]
@@ -366,9 +407,16 @@ def gen_case(rng, ndocs=None, nq=8, maxdepth=5, longdocs=False):
                 f = rng.choice([n for n, o in spec.items() if o["kind"] in TEXTY])
                 n = rng.choice([11, 12, 15, 16, 17, 25, 40])
                 docs[k][f] = [[rng.choice(vocab), i, 1.0] for i in range(n)]
-    hist = gen_history(rng, keys)
+    hist = gen_history(rng, keys, nseg=nseg)
+    if nodeletes:
+        hist = [dict(c, **{"del": []}) for c in hist if c["add"]]
     qg = QGen(rng, spec, vocab, docs, maxdepth=maxdepth)
     queries = [qg.tree() for _ in range(nq)]
+    for _ in range(sparse_or):
+        # three or more sparse clauses: the array union (scored, needs_current=False) has to cross
+        # empty stretches and, beyond 2048 documents, part boundaries
+        n = rng.choice([3, 3, 4, 5])
+        queries.append(["or", [qg.sparse_leaf() for _ in range(n)], qg.boost()])
     return {"schema": spec, "docs": docs, "history": hist, "queries": queries}
 
 
@@ -635,6 +683,10 @@ def q_to_lean(enc, case, q):
 
 
 class Unmodelled(Exception):
+    pass
+
+
+class ModelTimeout(Exception):
     pass
 
 
@@ -925,19 +977,40 @@ class CaseRun(object):
         self.driver = Driver()
         self.case = case
         self.mode = opts.get("mode", "freq")
+        self.modestr = self.mode
+        self.final = (opts.get("weighting") or ("freq",))[0] == "final"
         self._nr = {}
 
     # --- Lean side
+    def ask1(self, line, timeout=40.0):
+        """one driver request; a request the compiled model cannot answer in time makes the whole
+        case be skipped (counted), never hang the check"""
+        import subprocess
+        from vcheck import DRIVER
+        try:
+            p = subprocess.run([DRIVER], input=(line + "\n").encode("utf-8"), stdout=subprocess.PIPE,
+                               stderr=subprocess.PIPE, timeout=timeout)
+        except subprocess.TimeoutExpired:
+            raise ModelTimeout(line[:60])
+        if p.returncode != 0:
+            raise RuntimeError("driver exit %s: %s" % (p.returncode, p.stderr.decode("utf-8", "replace")[-500:]))
+        return p.stdout.decode("utf-8").rstrip("\n")
+
     def ask_hits(self, leanqs):
         from vcheck import parse_sexp
-        out = self.driver.ask1("c01 hits %s %s (%s)" % (self.mode, self.idx, " ".join(leanqs)))
+        out = self.ask1("c01 hits %s %s (%s)" % (self.modestr, self.idx, " ".join(leanqs)))
         if out == "bad-op":
             raise RuntimeError("driver rejected hits request (seed %s)" % self.seed)
-        return [[(int(h[0]), parse_rat(h[1])) for h in hits] for hits in parse_sexp(out)[0]]
+        res = [[(int(h[0]), parse_rat(h[1])) for h in hits] for hits in parse_sexp(out)[0]]
+        if self.final:
+            # the weighting's final(searcher, global docnum, score) hook, applied by the collector
+            keys = [k for ks, _ in self.layout for k in ks]
+            res = [[(d, final_expected(keys[d], sc)) for d, sc in hits] for hits in res]
+        return res
 
     def ask_compile(self, leanqs, nc, scored):
         from vcheck import parse_sexp
-        out = self.driver.ask1("c01 compile %s %d %d %s (%s)" % (self.mode, nc, scored, self.idx, " ".join(leanqs)))
+        out = self.ask1("c01 compile %s %d %d %s (%s)" % (self.modestr, nc, scored, self.idx, " ".join(leanqs)))
         if out == "bad-op":
             raise RuntimeError("driver rejected compile request (seed %s)" % self.seed)
         return [[[(int(h[0]), parse_rat(h[1])) for h in seg] for seg in perq] for perq in parse_sexp(out)[0]]
@@ -1012,221 +1085,142 @@ class CaseRun(object):
         return None
 
     # --- classification --------------------------------------------------------------------
-    def seg_lists(self, q, top):
-        """ids of q per segment (local ids); with top=True one pseudo segment holding global ids"""
-        lq = self.lean(q)
-        if lq is None:
-            return None
-        if top:
-            return [[d for d, _ in self.ask_hits([lq])[0]]]
-        return [[d for d, _ in seg] for seg in self.ask_compile([lq], 0, 0)[0]]
-
-    def deleted_sets(self, top):
-        if not top:
-            return [(set(d), len(k)) for k, d in self.layout]
-        dele, off = set(), 0
-        for k, d in self.layout:
-            dele.update(x + off for x in d)
-            off += len(k)
-        return [(dele, off)]
-
-    def andnot_leaks(self, q, top):
-        a, b = self.seg_lists(q[1], top), self.seg_lists(q[2], top)
-        if a is None or b is None:
-            return False
-        return any(A and B and B[0] < A[0] and A[0] in B for A, B in zip(a, b))
-
-    def inverse_leaks(self, q, top):
-        c = self.seg_lists(q[1], top)
-        if c is None:
-            return False
-        for C, (dele, size) in zip(c, self.deleted_sets(top)):
-            if C and C[-1] + 1 < size and (C[-1] + 1) in dele:
-                return True
-        return False
-
+    # Every defect of other families that used to be explained here (AndNot / Inverse leaks,
+    # DisjunctionMax score, replace(0), block-quality skipping, numeric ranges, collector counts) is
+    # repaired in the tree; their predicates are gone so that a regression is reported as a
+    # violation with a minimised replay.  One genuine finding (C19) is left.
     def nodes(self, q):
         yield q
         for sq in subqueries(q):
             for n in self.nodes(sq):
                 yield n
 
-    def nrange_wrong(self, s, n):
-        """is this bare numeric/date range itself answered wrongly (C13's business)?"""
-        key = json_dumps(n)
+    def fuzzy_differs_on_top_reader(self, s, n):
+        """Does this bare FuzzyTerm, expanded through the multi-segment reader (Query.docs on the top
+        searcher), return documents the per-segment expansion does not, or vice versa — while the
+        per-segment path agrees with the specification?"""
+        key = "fz" + json_dumps(n)
         if key not in self._nr:
-            r = self.check_query(s, n, ["docs_for_query"], False)
-            self._nr[key] = bool(r and r[1])
+            r = self.check_query(s, n, ["q.docs", "docs_for_query"], False)
+            self._nr[key] = bool(r) and "q.docs" in r[1] and "docs_for_query" not in r[1] and \
+                r[1]["q.docs"]["kind"] == "docs"
         return self._nr[key]
-
-    def dismax_too_high(self, s, n):
-        """does this DisjunctionMax sub-query, searched on its own, score some document above the
-        maximum of its matching clauses (right documents, too high scores)?"""
-        key = "dm" + json_dumps(n)
-        if key not in self._nr:
-            r = self.check_query(s, n, ["limit=None"], True)
-            f = r[1].get("limit=None") if r else None
-            res = bool(f and f["kind"] == "score" and
-                       any(parse_rat(o) > parse_rat(e) for o, e in f["obs"].values()))
-            if f and f["kind"] == "exc":
-                # the search of the sub-query is aborted by another defect: step its matcher per segment
-                res = self.stepped_too_high(s, n)
-            self._nr[key] = res
-        return self._nr[key]
-
-    def stepped_too_high(self, s, n):
-        from fractions import Fraction
-        lq = self.lean(n)
-        if lq is None:
-            return False
-        model = self.ask_compile([lq], 0, 1)[0]
-        wq = q_to_whoosh(self.case, n)
-        ctx = s.context()
-        for (ss, _off), mseg in zip(s.leaf_searchers(), model):
-            try:
-                real = with_watchdog(lambda: step_matcher(wq.matcher(ss, ctx)), 12.0)
-            except Exception:  # noqa
-                continue
-            if [d for d, _ in real] == [d for d, _ in mseg]:
-                for (_, sc), (_, e) in zip(real, mseg):
-                    o = Fraction(*float(sc).as_integer_ratio())
-                    if o > e and abs(o - e) > Fraction(1, 10**9) * max(1, abs(e)):
-                        return True
-        return False
-
-    def leaf_right(self, s, n):
-        key = "leaf" + json_dumps(n)
-        if key not in self._nr:
-            r = self.check_query(s, n, ["limit=None"], True)
-            self._nr[key] = bool(r) and not r[1]
-        return self._nr[key]
-
-    def stepping_right(self, s, q, nc, scores, full=None):
-        """True iff (a) stepping the real per-segment matchers with next() only gives the model's
-        lists, and (b) re-playing ScoredCollector.matches() on them — replace(0) before the first and
-        after every 10th hit, ids shifted by the segment offset — reproduces exactly what the
-        search returned (`full`).  Then replace(0), which must not change what is enumerated, is
-        what makes the search differ."""
-        from fractions import Fraction
-        lq = self.lean(q)
-        if lq is None or full is None or "scores" not in full:
-            return False
-        model = self.ask_compile([lq], int(nc), 1)[0]
-        wq = q_to_whoosh(self.case, q)
-        ctx = s.context(needs_current=bool(nc))
-
-        def close(o, e):
-            return (o == e) if self.mode == "freq" else abs(o - e) <= Fraction(1, 10**9) * max(1, abs(e))
-
-        def replay(m, off):
-            out, counter = {}, 0
-            while m.is_active():
-                if counter == 0:
-                    m = m.replace(0)
-                    if not m.is_active():
-                        break
-                    counter = 10
-                counter -= 1
-                out[m.id() + off] = Fraction(*float(m.score()).as_integer_ratio())
-                m.next()
-                if len(out) > 100000:
-                    raise RuntimeError("no end")
-            return out
-        try:
-            replayed = {}
-            for (ss, off), mseg in zip(s.leaf_searchers(), model):
-                real = with_watchdog(lambda: step_matcher(wq.matcher(ss, ctx)), 12.0)
-                if [d for d, _ in real] != [d for d, _ in mseg]:
-                    return False
-                if scores and not all(close(Fraction(*float(sc).as_integer_ratio()), e)
-                                      for (_, sc), (_, e) in zip(real, mseg)):
-                    return False
-                replayed.update(with_watchdog(lambda: replay(wq.matcher(ss, ctx), off), 12.0))
-            observed = {int(d): Fraction(sc[0], sc[1]) for d, sc in full["scores"].items()}
-            if sorted(replayed) != sorted(observed):
-                return False
-            return all(close(replayed[d], observed[d]) for d in observed)
-        except Exception:  # noqa
-            return False
 
     def blame(self, s, q, path, fail):
         """known defect that explains a failure of q on path, or None"""
-        pc = path_class(path)
-        top = pc == "q.docs"
         if fail["kind"] == "exc":
             return "raises:%s" % fail["obs"]
+        if path == "limit=None" and fail["kind"] in ("docs", "score") and getattr(self, "nonpositive_leaf", False) \
+                and fail.get("full") and "scores" in fail["full"]:
+            # A weighting with non-positive term scores (ReverseWeighting, PL2, DFree): the array union
+            # that a scored, needs_current=False context picks for >= 3 clauses keeps a document only
+            # if its accumulated score is > 0.  The list model mirrors that rule (arrayParts): blame
+            # it only when the model's enumeration is exactly what the search returned.
+            from fractions import Fraction
+            lq = self.lean(q)
+            if lq is not None:
+                model, off = {}, 0
+                for (ks, _d), seg in zip(self.layout, self.ask_compile([lq], 0, 1)[0]):
+                    for d, sc in seg:
+                        model[d + off] = sc
+                    off += len(ks)
+                observed = {int(d): Fraction(sc[0], sc[1]) for d, sc in fail["full"]["scores"].items()}
+                if sorted(model) == sorted(observed) and \
+                        all(abs(model[d] - observed[d]) <= Fraction(1, 10**9) * max(1, abs(model[d])) for d in model):
+                    return "ArrayUnionMatcher:document-with-non-positive-accumulated-score-is-dropped"
+            # ConstantScoreQuery / constant-score multi-term queries read the array union through
+            # all_ids(), which also tests the first document of a part (the stepping model does not):
+            # accept when an array-union candidate is present and the needs_current=True path, which
+            # never uses the array union for scoring, is right for the very same query
+            cand = any((n[0] == "or" and len(n[1]) >= 3) or n[0] in ("prefix", "wild", "regex", "trange", "fuzzy", "nrange", "drange")
+                       for n in self.nodes(q))
+            if cand:
+                r = self.check_query(s, q, ["terms=True"], True)
+                if r and not r[1]:
+                    return "ArrayUnionMatcher:document-with-non-positive-accumulated-score-is-dropped"
+        sig = self.blame_empty_term(q, path, fail)
+        if sig:
+            return sig
+        if path_class(path) == "q.docs" and fail["kind"] == "docs" and len(self.layout) > 1:
+            fz = [n for n in self.nodes(q) if n[0] == "fuzzy"]
+            if fz and any(self.fuzzy_differs_on_top_reader(s, n) for n in fz):
+                # ... and the query itself is right on the per-segment path
+                r = self.check_query(s, q, ["docs_for_query"], False)
+                if r and not r[1]:
+                    # MultiReader.terms_within measures Damerau-Levenshtein (a transposition counts 1),
+                    # the per-segment automaton plain Levenshtein: the expansion differs
+                    return ("FuzzyTerm:terms_within-of-a-multi-segment-reader-counts-transpositions-"
+                            "the-per-segment-automaton-does-not")
+        return None
+
+    def blame_empty_term(self, q, path, fail):
+        """`MultiTerm.matcher` skipped the empty term (an ID field whose value is "" indexes it):
+        repaired by r2-search 9ad90ad, which the list model mirrors.  On a tree without the repair the
+        observation is explained exactly when it is what the specification gives for the same index
+        with the empty term removed from the fields the query expands — and the query reaches the
+        empty term in no other way (Term(f, ""), Every(f), Prefix(f, ""), Wildcard(f, "*"))."""
+        multi = ("prefix", "wild", "regex", "trange", "fuzzy")
         nodes = list(self.nodes(q))
-        for n in nodes:
-            if n[0] in ("nrange", "drange") and self.nrange_wrong(s, n):
-                return "NumericRange._compile_query:bare-range-returns-wrong-documents"
-        for n in nodes:
-            if n[0] == "andnot" and self.andnot_leaks(n, top):
-                return "AndNotMatcher._find_first:first-neg-id<first-pos-id"
-        for n in nodes:
-            if n[0] == "not" and self.inverse_leaks(n, top):
-                return "InverseMatcher._find_next:deleted-doc-after-last-child-posting"
-        if fail["kind"] == "score":
-            # composite scoring defects can only be blamed when every leaf of the query scores right
-            # on its own (a wrong formula / statistic / stored weight is not a matcher defect)
-            for n in nodes:
-                if n[0] in ("term", "phrase") and not self.leaf_right(s, n):
-                    return None
-            ups = [1 for o, e in fail["obs"].values() if parse_rat(o) > parse_rat(e)]
-            downs = [1 for o, e in fail["obs"].values() if parse_rat(o) < parse_rat(e)]
-            # too high: a DisjunctionMax sub-query that is too high on its own;
-            # too low: an AndMaybe below an intersection (skip_to() leaves the optional matcher behind
-            # the required one, so its score is not added)
-            up_ok = not ups or any(n[0] == "dismax" and len(n[1]) >= 2 and self.dismax_too_high(s, n)
-                                   for n in nodes)
-            down_ok = not downs or (any(n[0] == "andmaybe" for n in nodes) and len(nodes) > 3)
-            if up_ok and down_ok:
-                if ups:
-                    return "DisjunctionMaxMatcher.score:max-over-children-on-different-docs"
-                return "AndMaybeMatcher.skip_to:optional-clause-score-missing-after-skip"
-            if path in ("limit=None", "terms=True") and \
-                    self.stepping_right(s, q, path == "terms=True", True, fail.get("full")):
-                return "Matcher.replace(0):collector-result-differs-from-plain-stepping-of-the-same-matcher"
+        fields = set(n[1] for n in nodes if n[0] in multi)
+        if not fields or fail["kind"] == "exc":
             return None
-        if path in ("limit=None", "terms=True") and \
-                self.stepping_right(s, q, path == "terms=True", fail["kind"] == "score", fail.get("full")):
-            # the matcher tree enumerates the right (doc, score) list when it is only stepped with next(),
-            # but ScoredCollector.matches() also calls matcher.replace(0) (at the start and every 10 hits):
-            # replace(0) is supposed to be the identity on what is enumerated
-            return "Matcher.replace(0):collector-result-differs-from-plain-stepping-of-the-same-matcher"
-        # the same query is right on the per-segment exhaustive path?
-        r = self.check_query(s, q, ["docs_for_query"], False)
-        exhaustive_ok = bool(r) and not r[1]
-        if pc == "limit=k" and exhaustive_ok:
-            if fail["kind"] == "len":
-                if isinstance(fail["obs"], int) and fail["obs"] < fail.get("explen", -1):
-                    return "TopCollector.count:len-below-matched-set-after-replace-pruning"
-                if isinstance(fail["obs"], int) and fail["obs"] > fail.get("explen", 1 << 60):
-                    return "TopCollector.count:len-above-matched-set-while-exhaustive-paths-agree"
+        if path == "matcher":
+            if fail["kind"] != "docs":
                 return None
-            if fail["kind"] == "docs":
-                extras = set(fail["obs"]) - set(d for d, _ in (r[0] if r else []))
-                dele = self.deleted_sets(True)[0][0]
-                if extras and extras <= dele:
-                    return "FilterMatcher.skip_to_quality:deleted-document-resurfaces-under-limit=k"
-                if extras:
-                    for n in nodes:
-                        if n[0] == "not":
-                            inner = self.seg_lists(n[1], True)
-                            if inner is not None and extras <= set(inner[0]):
-                                return "InverseMatcher.skip_to_quality/replace:limit=k-returns-document-matching-the-negated-query"
-            if fail["kind"] == "docs" and set(fail["obs"]) <= set(d for d, _ in (r[0] if r else [])):
-                # every hit is an answer, but there are fewer than min(k, |answer|) of them
-                return "TopCollector/block-quality:limit=k-fewer-hits-than-matches-while-exhaustive-paths-agree"
+        elif "full" not in fail or "exc" in fail["full"]:
             return None
-        if top and exhaustive_ok and len(self.layout) > 1:
-            for n in nodes:
-                if n[0] == "fuzzy":
-                    rr = self.check_query(s, n, ["q.docs"], False)
-                    if rr and rr[1]:
-                        # MultiReader.terms_within measures Damerau-Levenshtein (transpositions count 1),
-                        # the per-segment automaton plain Levenshtein: the expansion differs
-                        return "FuzzyTerm:terms_within-of-a-multi-segment-reader-counts-transpositions-the-per-segment-automaton-does-not"
-            return "MultiMatcher:Query.docs-on-multi-segment-searcher-differs-from-docs_for_query"
+        spec = self.case["schema"]
+
+        def has_empty(d, f):
+            if f not in d:
+                return False
+            k = spec[f]["kind"]
+            if k == "id":
+                return d[f] == ""
+            if k == "keyword":
+                return "" in d[f]
+            if k in TEXTY:
+                return any(t[0] == "" for t in d[f])
+            return False
+        fields = set(f for f in fields if f in spec and any(has_empty(d, f) for d in self.case["docs"].values()))
+        if not fields:
+            return None
+        for n in nodes:
+            if (n[0] == "term" and n[1] in fields and n[2] == "") or (n[0] == "every" and n[1] in fields | {None}) \
+                    or (n[0] == "prefix" and n[1] in fields and n[2] == "") \
+                    or (n[0] == "wild" and n[1] in fields and n[2] == "*") \
+                    or (n[0] == "regex" and n[1] in fields):
+                return None
+        docs = {}
+        for key, d in self.case["docs"].items():
+            d2 = {}
+            for f, v in d.items():
+                if f in fields and has_empty(d, f):
+                    k = spec[f]["kind"]
+                    if k == "id":
+                        continue
+                    v = [x for x in v if (x if k == "keyword" else x[0]) != ""]
+                d2[f] = v
+            docs[key] = d2
+        lq = self.lean(q)
+        if lq is None or self.mode == "table":
+            return None
+        saved = self.idx
+        try:
+            self.idx = lean_index(self.enc, dict(self.case, docs=docs), self.layout, None)
+            if path == "matcher":
+                mseg = self.ask_compile([lq], fail["nc"], 1)[0][fail["seg"]]
+                exp = None
+            else:
+                exp = self.ask_hits([lq])[0]
+        finally:
+            self.idx = saved
+        if path == "matcher":
+            if [d for d, _ in mseg] == fail["obs"]:
+                return "MultiTerm.matcher:empty-term-is-skipped-by-the-expansion"
+            return None
+        if self.compare(path, exp, fail["full"], self.opts.get("scores", False)) is None:
+            return "MultiTerm.matcher:empty-term-is-skipped-by-the-expansion"
         return None
 
     def classify(self, q, path, fail):
@@ -1241,7 +1235,9 @@ class CaseRun(object):
         if self.case is None:
             rng = random.Random(self.seed)
             self.case = gen_case(rng, ndocs=self.opts.get("ndocs"), nq=self.opts.get("nq", 8),
-                                 maxdepth=self.opts.get("maxdepth", 5), longdocs=self.opts.get("longdocs", False))
+                                 maxdepth=self.opts.get("maxdepth", 5), longdocs=self.opts.get("longdocs", False),
+                                 nseg=self.opts.get("nseg"), nodeletes=self.opts.get("nodeletes", False),
+                                 vocab_n=self.opts.get("vocab_n"), sparse_or=self.opts.get("sparse_or", 0))
         case = self.case
         if self.opts.get("queries") is not None:
             case = dict(case, queries=self.opts["queries"])
@@ -1265,6 +1261,8 @@ class CaseRun(object):
         with ix.searcher(weighting=weighting) as s:
             self.layout = read_layout(s)
             tables = None
+            if self.mode == "lean":
+                self.modestr = lean_model_mode(self, wspec)
             if self.mode == "table":
                 tables = ref_leaf_tables(self, s, wspec)
                 # the statistics the reference used vs. what the index reports (C06's business, but a
@@ -1285,7 +1283,7 @@ class CaseRun(object):
                 return res
             exps = self.ask_hits([lq for _, lq in modelled])
             if self.opts.get("hyp"):
-                wf = self.driver.ask1("c01 wf %s (%s)" % (self.idx, " ".join(lq for _, lq in modelled)))
+                wf = self.ask1("c01 wf %s (%s)" % (self.idx, " ".join(lq for _, lq in modelled)))
                 flags = wf.strip("()").split()
                 stat("hyp:index-ok" if flags[0] == "1" else "hyp:index-not-ok")
                 stat("hyp:query-positive", sum(1 for x in flags[1:] if x == "1"))
@@ -1363,7 +1361,7 @@ class CaseRun(object):
     def correspondence(self, s, modelled, res, stat):
         from fractions import Fraction
         scores = self.opts.get("scores", False)
-        for nc in (0, 1):
+        for nc in self.opts.get("corr_nc", (0, 1)):
             ctx = s.context(needs_current=bool(nc))
             model = self.ask_compile([lq for _, lq in modelled], nc, 1)
             for (q, lq), perseg in zip(modelled, model):
@@ -1393,7 +1391,7 @@ class CaseRun(object):
                             if bad:
                                 fail = {"kind": "score", "obs": bad}
                     if fail:
-                        sig = self.blame(s, q, "matcher", dict(fail, explen=len(mseg))) or \
+                        sig = self.blame(s, q, "matcher", dict(fail, explen=len(mseg), seg=si, nc=nc)) or \
                             self.classify(q, "matcher", fail)
                         res["failures"].append({"sig": sig, "q": q, "path": "matcher:nc=%d:seg=%d" % (nc, si),
                                                 "kind": fail["kind"], "corr": True,
@@ -1405,7 +1403,11 @@ def work(arg):
     """top-level worker for ctx.pmap"""
     seedstr, opts = arg
     case = opts.get("explicit_case")
-    res = CaseRun(seedstr, {k: v for k, v in opts.items() if k != "explicit_case"}, case=case).run()
+    try:
+        res = CaseRun(seedstr, {k: v for k, v in opts.items() if k != "explicit_case"}, case=case).run()
+    except ModelTimeout:
+        res = {"seed": seedstr, "failures": [], "stats": {"case-skipped:model-timeout": 1}, "ncases": 0, "keys": [],
+               "opts": {}}
     if case is not None:
         res["explicit"] = case
     return res
@@ -1415,11 +1417,44 @@ def work(arg):
 # weighting models: construction from a picklable spec, and the reference leaf-score table
 # (the documented formula evaluated from statistics re-derived from the corpus model)
 
+from whoosh import scoring as _scoring   # noqa
+
+
+class FinalFrequency(_scoring.Frequency):
+    """Frequency plus a final() hook that looks at the document (its stored key): the collector must
+    hand final() the *global* document number together with the top-level searcher."""
+    use_final = True
+
+    def final(self, searcher, docnum, score):
+        key = searcher.stored_fields(docnum)["i"]
+        return score * 0.5 + int(key[1:]) * 0.25
+
+
+def final_expected(key, score):
+    from fractions import Fraction
+    return score * Fraction(1, 2) + Fraction(int(key[1:]), 4)
+
+
+def function_score(searcher, fieldname, text, matcher):
+    """FunctionWeighting: a function of the posting only"""
+    return matcher.weight() * 2.0 + 1.0
+
+
 def make_weighting(wspec):
     from whoosh import scoring
     k = wspec[0]
     if k == "freq":
         return scoring.Frequency()
+    if k == "final":
+        return FinalFrequency()
+    if k == "function":
+        return scoring.FunctionWeighting(function_score)
+    if k == "pl2":
+        return scoring.PL2(c=wspec[1])
+    if k == "dfree":
+        return scoring.DFree()
+    if k == "reverse":
+        return scoring.ReverseWeighting(make_weighting(wspec[1]))
     if k == "bm25f":
         return scoring.BM25F(B=wspec[1], K1=wspec[2], **{"%s_B" % f: b for f, b in wspec[3].items()})
     if k == "tfidf":
@@ -1428,6 +1463,24 @@ def make_weighting(wspec):
         return scoring.MultiWeighting(make_weighting(wspec[1]),
                                       **{f: make_weighting(w) for f, w in wspec[2].items()})
     raise ValueError(k)
+
+
+def lean_model_mode(run, wspec):
+    """MODE expression that makes the driver score with the *Lean* TF_IDF / BM25F leaf models over
+    the Lean collection statistics (WM.Search.tfidfLeaf / bm25fLeaf / termStats); only the idf
+    values, a logarithm, are computed here — from the document count and every possible document
+    frequency of the layout"""
+    import math
+    N = sum(len(ks) for ks, _ in run.layout)
+    rows = " ".join("(%d %d %s)" % (N, df, rat(math.log(N / (df + 1)) + 1)) for df in range(0, N + 1)) if N else ""
+    if wspec[0] == "tfidf":
+        return "(tfidf (%s))" % rows
+    if wspec[0] == "bm25f":
+        spec = run.case["schema"]
+        fields = " ".join("(%s %s %d)" % (f, rat(wspec[3].get(f, wspec[1])), 1 if field_scorable(o) else 0)
+                          for f, o in sorted(spec.items()))
+        return "(bm25f %s (%s) %s (%s))" % (rat(wspec[2]), fields, rat(wspec[1]), rows)
+    raise ValueError(wspec)
 
 
 def field_scorable(o):
@@ -1473,6 +1526,7 @@ def ref_leaf_tables(run, searcher, wspec):
             per[f] = ({t: f32(x * fb) for t, x in w.items()}, sum(cnt.values()))
         posts[key] = per
     df, flen_exact, flen_quant, flen_mixed = {}, {}, {}, {}
+    cf = {}     # collection frequency: sum of the stored weights of a term (deleted documents included)
     srccommit = {}
     for ci, c in enumerate(case["history"]):
         for k in c.get("add", []):
@@ -1483,6 +1537,7 @@ def ref_leaf_tables(run, searcher, wspec):
             for f, (ws, length) in posts[key].items():
                 for t in ws:
                     df[(f, t)] = df.get((f, t), 0) + 1
+                    cf[(f, t)] = cf.get((f, t), 0.0) + ws[t]
                 if field_scorable(spec[f]):
                     q = byte_to_length(length_to_byte(length))
                     flen_exact[f] = flen_exact.get(f, 0) + length
@@ -1505,8 +1560,28 @@ def ref_leaf_tables(run, searcher, wspec):
 
     def leaf(ws, f, t, tf, length):
         k = ws[0]
-        if k == "freq":
+        if k in ("freq", "final"):
             return tf
+        if k == "function":
+            return tf * 2.0 + 1.0
+        if k == "reverse":
+            return 0 - leaf(ws[1], f, t, tf, length)
+        if k in ("pl2", "dfree"):
+            if not field_scorable(spec[f]):
+                return tf
+            fl = byte_to_length(length_to_byte(length))
+            if k == "pl2":
+                avgfl = (flen.get(f, 0) / (N or 1)) or 1
+                TF = tf * math.log(1.0 + (ws[1] * avgfl) / fl)
+                ff = cf[(f, t)] / N
+                return (1.0 / (TF + 1.0)) * (TF * math.log(1.0 / ff) + ff * (1.0 / math.log(2))
+                                             + 0.5 * math.log(2 * math.pi * TF)
+                                             + TF * (math.log(TF) - 1.0 / math.log(2)))
+            prior = tf / fl
+            post = (tf + 1.0) / (fl + 1.0)
+            inv = flen.get(f, 0) / cf[(f, t)]
+            return tf * math.log(post / prior) * (tf * math.log(prior * inv) + (tf + 1.0) * math.log(post * inv)
+                                                  + 0.5 * math.log(post / prior))
         if k == "multi":
             return leaf(ws[2].get(f, ws[1]), f, t, tf, length)
         idf = math.log(N / (df[(f, t)] + 1)) + 1
@@ -1522,10 +1597,90 @@ def ref_leaf_tables(run, searcher, wspec):
             return idf * ((tf * (K1 + 1)) / (tf + K1 * ((1 - B) + B * fl / avgfl)))
         raise ValueError(k)
     tables = {}
+    run.nonpositive_leaf = False
     for key in keys:
         tbl = {}
         for f, (ws, length) in posts[key].items():
             for t, tf in ws.items():
                 tbl[(f, t)] = leaf(wspec, f, t, tf, length)
+                if tbl[(f, t)] <= 0:
+                    run.nonpositive_leaf = True
         tables[key] = tbl
     return tables
+
+
+# ------------------------------------------------------------------------------------------------
+# C09.layout end-to-end: without deletions the same documents score the same in every segment layout
+
+def layout_work(arg):
+    """Index the documents of one generated case (no deletions) under two different commit
+    partitions / merge settings and compare collection statistics and the scores of every term
+    of the text fields, per document key."""
+    import random
+    seedstr, opts = arg
+    private_tmp(opts.get("scratch"))
+    rng = random.Random(seedstr)
+    case = gen_case(rng, ndocs=opts.get("ndocs"), nq=1, longdocs=True, nodeletes=True)
+    wspec = tuple(opts.get("weighting") or ("bm25f", 0.75, 1.2, {}))
+    keys = sorted(case["docs"])
+    res = {"seed": seedstr, "failures": [], "stats": {}, "ncases": 0, "keys": [], "opts": {}}
+    # second layout: another partition of the same key order, other block sizes, merges
+    cuts = sorted(rng.sample(range(1, len(keys)), min(rng.choice([0, 1, 2, 4]), max(0, len(keys) - 1)))) \
+        if len(keys) > 1 else []
+    hist2, prev = [], 0
+    for c in cuts + [len(keys)]:
+        hist2.append({"add": keys[prev:c], "del": [], "blocklimit": rng.choice([1, 2, 4, None]),
+                      "merge": rng.random() < 0.5, "optimize": rng.random() < 0.2})
+        prev = c
+    textf = sorted(n for n, o in case["schema"].items() if o["kind"] in TEXTY)
+    terms = sorted(set((f, t[0]) for d in case["docs"].values() for f in textf for t in d.get(f, [])))
+    from whoosh import query as Q
+    obs = []
+    for hist in (case["history"], hist2):
+        ix = build_index(dict(case, history=hist))
+        with ix.searcher(weighting=make_weighting(wspec)) as s:
+            st = {"N": s.doc_count_all(), "nseg": len(s.leaf_searchers()),
+                  "flen": {f: s.field_length(f) for f in textf},
+                  "df": {"%s:%s" % ft: s.doc_frequency(ft[0], ft[1]) for ft in terms}}
+            # the Lean specification of the statistics (WM.Search.termStats) on the layout as it is
+            from vcheck import Driver, parse_sexp
+            enc = Enc(case["schema"])
+            lidx = lean_index(enc, case, read_layout(s))
+            out = Driver().ask1("c09 stats %s (%s)" % (lidx, " ".join("(%s %s)" % (f, hexs(t.encode("utf8")))
+                                                                      for f, t in terms)))
+            spec_stats = [[x[0], x[1], x[2], x[3]] for x in parse_sexp(out)[0]] if out != "bad-op" else None
+            real_stats = []
+            for f, t in terms:
+                cfr = s.frequency(f, t)
+                real_stats.append([str(s.doc_count_all()), str(s.doc_frequency(f, t)),
+                                   rat(cfr) if cfr != int(cfr) else str(int(cfr)), str(s.field_length(f))])
+            if spec_stats != real_stats:
+                bad = [(ft, a, b) for ft, a, b in zip(terms, spec_stats or [], real_stats) if a != b][:3]
+                res["failures"].append({"sig": "layout:collection-statistics-differ-from-specified-termStats", "q": None,
+                                        "path": "stats", "kind": "stats", "exp": str(bad), "obs": "",
+                                        "layout": [[len(c["add"]), c["merge"]] for c in hist]})
+            sc = {}
+            for f, t in terms:
+                r = s.search(Q.Term(f, t), limit=None)
+                sc["%s:%s" % (f, t)] = {r.searcher.stored_fields(h.docnum)["i"]: h.score for h in r}
+            obs.append((st, sc))
+    (st1, sc1), (st2, sc2) = obs
+    res["ncases"] = len(terms) + 1
+    res["stats"]["layout:pairs"] = 1
+    res["stats"]["layout:segments-%d-vs-%d" % (st1["nseg"], st2["nseg"])] = 1
+    nontriv = st1["nseg"] != st2["nseg"]
+    if nontriv:
+        res["keys"] = [(seedstr, "layout", ft) for ft in terms]
+    layouts = [[len(c["add"]), c["merge"]] for c in case["history"]], [[len(c["add"]), c["merge"]] for c in hist2]
+    if {k: v for k, v in st1.items() if k != "nseg"} != {k: v for k, v in st2.items() if k != "nseg"}:
+        res["failures"].append({"sig": "layout:collection-statistics-differ-across-segment-layouts", "q": None,
+                                "path": "layout", "kind": "stats", "exp": st1, "obs": st2, "layout": layouts})
+    for ft in sc1:
+        a, b = sc1[ft], sc2[ft]
+        bad = sorted(a) != sorted(b) or any(abs(a[k] - b[k]) > 1e-9 * max(1.0, abs(a[k])) for k in a)
+        if bad:
+            res["failures"].append({"sig": "layout:term-score-differs-across-segment-layouts",
+                                    "q": ["term"] + ft.split(":", 1) + [1.0], "path": "layout", "kind": "score",
+                                    "exp": a, "obs": b, "layout": layouts})
+            break
+    return res
